@@ -62,7 +62,17 @@ def _progs(tier: str) -> List[Dict[str, Any]]:
 
 
 def cases(tier: str, seed: int) -> List[Dict[str, Any]]:
-    return [dict(c, kind="prune", seed=seed) for c in _progs(tier)]
+    from models.programs import chains
+
+    out = [dict(c, kind="prune", seed=seed) for c in _progs(tier)]
+    # tier A: tracked graphs obtained by calling the tracking backend on emitted FX graphs
+    akeys = ["linear:nn", "gelu:F", "rotate_half", "stack_mean", "masked", "with_zeros", "reshape", "neg", "cat_kw",
+             "cmp_two", "view_t", "mul_scalar", "sdpa:mask_kw"]
+    depth = 3 if tier == "thorough" else 2
+    for n, items in enumerate(chains(akeys, depth)):
+        out.append({"kind": "prune", "tier_a": True, "prog": {"items": items, "first": "x", "sink": ["sum", "two_outputs", "tensor"][n % 3]},
+                    "backward": n % 3 != 0, "seed": seed})
+    return out
 
 
 # --------------------------------------------------------------------------- reference
@@ -239,9 +249,9 @@ def run_case(case: Dict[str, Any]) -> Dict[str, Any]:
 
     prog = case["prog"]
     kinds = sorted({k.split(":")[0] for k in keys_of(prog["items"])})
-    base = f"ops={'+'.join(kinds)}"
+    base = ("fx|" if case.get("tier_a") else "") + f"ops={'+'.join(kinds)}"
     try:
-        r = track(prog, case["seed"], case["backward"])
+        r = track(prog, case["seed"], case["backward"], tier_a=bool(case.get("tier_a")))
     except Exception as e:  # noqa
         return {"violations": [exception_violation(e, "track|" + base)], "outcome": "raises"}
     graph, src = r["graph"], r["src"]
